@@ -216,6 +216,7 @@ func c07build(atoms []c07atom, paramStyle int) c07model {
 			// escaped percent signs and function chunks right next to the references: "%%" + a parameter name that is NOT
 			// referenced + the real references back to back, closed by a function chunk
 			var sb strings.Builder
+			sb.WriteString(`%envInt("C07", 1)%`)
 			for _, d := range parDeps[i] {
 				sb.WriteString("%%" + c07par[(d+1)%3] + "%" + c07par[d] + "%")
 			}
@@ -530,6 +531,25 @@ func init() {
 						})
 					})
 				}
+			}
+			// cyclic and acyclic relations however the YAML presents them (tags as aliased objects, merged mappings ...)
+			for mi, idx := range [][]int{{}, {0}, {1, 3}, {9, 15}, {10, 16, 22}, {21, 27, 33}, {35, 39}, {36, 40, 43}} {
+				mi, idx := mi, idx
+				w.Case(fmt.Sprintf("yaml-presentation/%d", mi), func(c *C) {
+					sel := make([]c07atom, len(idx))
+					for i, x := range idx {
+						sel[i] = c07atoms[x]
+					}
+					m := c07build(sel, 1)
+					// tags in the object form, so that names and priorities are values that can be aliased / merged
+					for i := range m.cfg.Services {
+						for j := range m.cfg.Services[i].Tags {
+							m.cfg.Services[i].Tags[j].Priority = P(10*i + j + 1)
+						}
+					}
+					c.Distinct("all", c.ID)
+					w.ShapeInvariance(c, c.ID, []File{{"c.yaml", m.cfg.YAML()}})
+				})
 			}
 			// defects of other classes next to the graph: every atom set of size <= 2 x {scope, missing parameter,
 			// missing service, all three}; all parameter graphs with all three
